@@ -3201,6 +3201,10 @@ class Choice(Set):
         self._currentIdx = None
         return Set.clear(self)
 
+    def reset(self):
+        self._currentIdx = None
+        return Set.reset(self)
+
     # compatibility stubs
 
     def getMinTagSet(self):
